@@ -18,6 +18,8 @@ R08.7  immediates are decoded with the decoder of their specified type: for ever
 R08.8  section readers follow the binary grammar: each section reader is partially evaluated on a scripted token stream of its
        grammar (counts, names, limits with all three flag forms, value types, mutability, indices, constant expressions) and the
        module record it builds is compared field by field with the decoded module; every token must be consumed
+R08.10 section sequences: wasmModuleRead evaluated on concrete files with every kind of valid section order (positional order with
+       DataCount between Element and Code, customs anywhere, sparse subsets, empty) - accepted, readers called in file order
 R08.9  reader primitives accept input that ends exactly at the end of the file (shared with C10 R10.11): a name, number or byte
        vector in the last section must decode like anywhere else
 R08.6  absent = empty: the module record comes from a zero-initialising allocation, and loops over module arrays are
@@ -885,6 +887,93 @@ def check_section_grammar(chk, tu):
     return n
 
 
+# ---- R08.10 ---------------------------------------------------------------------------------------
+
+def check_section_sequences(chk, tu):
+    """every section sequence the binary format permits is accepted: wasmModuleRead is partially evaluated on concrete byte images
+    (magic, version, then sections with zero-filled payloads) in which the section readers themselves are replaced by "consume the
+    declared size"; the read must succeed, call the readers of exactly the non-custom sections in file order, and consume the file.
+    The format's order is by *position*, not by id: DataCount (12) sits between Element (9) and Code (10); custom sections (0) may
+    appear anywhere, repeatedly"""
+    from .. import pe
+    from ..pe import Ptr, unk
+    ORDER = [1, 2, 3, 4, 5, 6, 7, 8, 9, 12, 10, 11]
+    seqs = {
+        'empty': [],
+        'all-sections': ORDER,
+        'without-datacount': [x for x in ORDER if x != 12],
+        'bulk-memory': [1, 3, 5, 12, 10, 11],
+        'datacount-then-data-only': [5, 12, 11],
+        'customs-everywhere': [0] + [y for x in ORDER for y in (x, 0)] + [0],
+        'only-customs': [0, 0, 0],
+        'sparse': [1, 3, 7, 10],
+        'start-and-element': [1, 3, 4, 8, 9, 10],
+        'custom-between-datacount-and-code': [1, 3, 5, 12, 0, 10, 0, 11, 0],
+    }
+    vd = tu.vars.get('wasmSectionReaders')
+    init = [c for c in kids(vd) if c.get('kind') == 'InitListExpr'][0]
+    readers = {}
+    for sid, e in enumerate(kids(init)):
+        e0 = strip(e, casts=True)
+        if e0.get('kind') == 'DeclRefExpr':
+            readers[e0['referencedDecl'].get('name')] = sid
+    chk.require(len(readers) >= 12, 'only %d section readers in the dispatch table' % len(readers))
+    n = 0
+    for label, seq in sorted(seqs.items()):
+        image = [0x00, 0x61, 0x73, 0x6D, 0x01, 0x00, 0x00, 0x00]
+        for k, sid in enumerate(seq):
+            size = 3 + (k % 3)
+            payload = [0] * size
+            if sid == 0:
+                payload = [2, 0x78, 0x79] + [0] * (size - 3)      # custom section: name "xy"
+            image += [sid, size] + payload
+        called = []
+
+        def reader_leaf(sid):
+            def f(interp, args, node):
+                called.append(sid)
+                rd, size = args[0], args[1]
+                r = interp.load(rd.c, rd.k)
+                buf = r['buffer']
+                if not isinstance(size, int) or not isinstance(buf['data'], Ptr):
+                    raise pe.PEError('section reader called with symbolic size')
+                buf['data'] = Ptr(buf['data'].c, buf['data'].k + size)
+                buf['length'] = buf['length'] - size
+                err = args[2]
+                interp.store(err.c, err.k, 0)
+                return None
+            return f
+        leafs = {nm: reader_leaf(sid) for nm, sid in readers.items()}      # custom-section contents are R08.4's business
+        leafs.update({'calloc': lambda i, a, nd: Ptr({'v': i.zero_init('struct WasmModule')}, 'v'), 'free': lambda i, a, nd: None,
+                      'fprintf': lambda i, a, nd: 0, 'wasmParseDebugInfo': lambda i, a, nd: unk('debug-lines'),
+                      'memcmp': lambda i, a, nd: 0 if all(i.load(a[0].c, a[0].k + j) == i.load(a[1].c, a[1].k + j) for j in range(a[2])) else 1,
+                      'strncmp': lambda i, a, nd: 1, 'strcmp': lambda i, a, nd: 1, 'strlen': lambda i, a, nd: 0,
+                      'malloc': lambda i, a, nd: Ptr([0] * (a[0] if isinstance(a[0], int) else 8), 0),
+                      'memcpy': lambda i, a, nd: a[0], 'strncpy': lambda i, a, nd: a[0]})
+        it = pe.Interp([tu], leafs, max_paths=64)
+        it.cur_tu = tu
+        errcell = {'v': unk('error-uninit')}
+        rd = {'v': {'buffer': {'data': Ptr(list(image), 0), 'length': len(image)}, 'module': 0, 'debug': 0}}
+        try:
+            ps = [p for p in it.explore(lambda: ('wasmModuleRead', [Ptr(rd, 'v'), Ptr(errcell, 'v')], {'rd': rd, 'err': errcell})) if not p.aborted]
+        except pe.PEError as e:
+            raise AnalysisBroken('wasmModuleRead on the section sequence %s: %s' % (label, e))
+        if not chk.expect(len(ps) == 1, 'R08.10', 'sequence:' + label, 'wasmModuleRead has %d paths on a concrete file' % len(ps),
+                          'wasmModuleRead:sequences'):
+            continue
+        n += 1
+        p = ps[0]
+        err = p.state['err']['v']
+        want = list(seq)
+        left = p.state['rd']['v']['buffer']['length']
+        chk.expect(err == 0 and called == want and left == 0, 'R08.10', 'sequence:' + label,
+                   'the section sequence %r (valid: sections in the format\'s positional order, custom sections anywhere) %s; readers called '
+                   'for %r, expected %r; %r bytes left unread' % (
+                       seq, 'is rejected with an error' if err != 0 else 'is accepted', called, want, left),
+                   'wasmModuleRead:sequences')
+    return n
+
+
 def run(chk):
     chk.explanation = (
         'Reader-side structural rules: (1) every call of a LEB128 decoder uses the returned byte count only as a truth value, so padding '
@@ -907,6 +996,8 @@ def run(chk):
     n7 = check_immediate_decoders(chk)
     n8 = check_section_grammar(chk, rtu)
     n9 = c10.check_exact_end(chk, 'R08.9')
+    n10 = check_section_sequences(chk, rtu)
+    chk.floor('R08.10', 10)
     chk.extra['sites'] = dict(leb_call_sites=n1, decoder_paths=n2, custom_section_writes=n4, container_loops=n6, instructions_decoded=n7)
     chk.floor('R08.1', 60)
     chk.floor('R08.2', 60)
